@@ -21,7 +21,6 @@ def run(ctx, F):
     cli = F.cli
     lib = F.lib
     tree = F.ast_cli
-    S = sym.Sym(cli)
     cfg = ctx.config
     # ------------------------------------------------------------- main: exit codes and stderr template
     main = tree.fn("main")
@@ -55,23 +54,41 @@ def run(ctx, F):
                     ctx.fail("F5-error-message", "main|Err prints `Error: {err}` to stderr", f"the Err arm does not print a message starting with `Error: ` and containing the error to stderr (templates: {[f['template'] for f in fmts]}, eprint calls: {len(eprints)}, print calls: {len(prints)})")
             elif fmts or eprints or prints:
                 ctx.fail("F5-error-message", "main|Ok prints nothing", "the Ok arm of main prints something")
-    # ------------------------------------------------------------- Args::run error flow
+    # ------------------------------------------------------------- the driver: Args::run and the helpers of the binary crate it calls
     run_b = cli.one("Args>::run")
+    D, envs = driver_set(cli, run_b)
+    S = sym.Sym(cli, force_inline={b.def_ for b in D if b is not run_b})
+    for b in D:
+        if b is run_b:
+            envs[b.def_] = None
+    # parameter environments of the helpers, in terms of Args::run's own parameters
+    for b in D[1:]:
+        sites = [(c, bi, t) for c in D for bi, t in c.calls() if mir.callee_name(t) == b.def_]
+        if len(sites) == 1 and sites[0][0].def_ in envs:
+            c, bi, t = sites[0]
+            envs[b.def_] = [S.operand(c, a_, env=envs[c.def_]) for a_ in t["args"]]
+        else:
+            envs[b.def_] = None
+    ctx.units["driver"] = [b.def_ for b in D]
     ords = Ordinals()
     want_calls = {"for_path": 0, "transform": 0, "write_all": 0}
-    for s in errflow.analyse_body(run_b):
-        v = errflow.verdict(s)
-        last = s.callee.rsplit("::", 1)[-1]
-        if last in want_calls:
-            want_calls[last] += 1
-        key = ords.key(f"run|{last}|{v}")
-        if v == "propagate":
-            ctx.ok("F2-cli-errors", key, {"callee": s.callee, "err": s.err})
-        else:
-            ctx.fail("F2-cli-errors", key, f"Args::run does not propagate the Result of {s.callee}: a failing file would not make the tool exit non-zero", where=f"{run_b.file}:{s.line}")
+    for b in D:
+        for s_ in errflow.analyse_body(b):
+            v = errflow.verdict(s_)
+            last = s_.callee.rsplit("::", 1)[-1]
+            if last in want_calls:
+                want_calls[last] += 1
+            if last == "compile_scss_path":
+                want_calls["for_path"] += 1
+                want_calls["transform"] += 1
+            key = ords.key(f"cli|{last}|{v}")
+            if v == "propagate":
+                ctx.ok("F2-cli-errors", key, {"callee": s_.callee, "err": s_.err, "in": b.def_})
+            else:
+                ctx.fail("F2-cli-errors", key, f"{mir.short(b.def_)} does not propagate the Result of {s_.callee}: a failing file would not make the tool exit non-zero", where=f"{b.file}:{s_.line}")
     for k, n in want_calls.items():
         if n < 1:
-            ctx.fail("anchor-lost", f"run|{k}", f"Args::run no longer calls {k} with a Result")
+            ctx.fail("anchor-lost", f"cli|{k}", f"Args::run (with its helpers {[mir.short(b.def_) for b in D[1:]]}) no longer calls {k} with a Result")
     # ------------------------------------------------------------- stdout: only the transform result
     stdout_calls, print_calls = [], []
     for b in cli.bodies.values():
@@ -82,52 +99,49 @@ def run(ctx, F):
             if n.endswith("io::_print") or n.endswith("io::stdio::_print"):
                 if "clap" not in b.def_:
                     print_calls.append((b, bi))
-    if len(stdout_calls) == 1 and stdout_calls[0][0] is run_b and not print_calls:
-        ctx.ok("F8-stdout", "only Args::run touches stdout", None)
+    if len(stdout_calls) == 1 and stdout_calls[0][0] in D and not print_calls:
+        ctx.ok("F8-stdout", "only the driver touches stdout", None)
     else:
-        ctx.fail("F8-stdout", "only Args::run touches stdout", f"stdout is used at {[(b.def_, b.where(bi)) for b, bi in stdout_calls]}, println! at {[(b.def_, b.where(bi)) for b, bi in print_calls]}")
-    writes = [(bi, t) for bi, t in run_b.calls() if (mir.callee_name(t) or "").endswith("Write>::write_all") or (mir.callee_orig(t) or "").endswith("io::Write::write_all") or (mir.callee_orig(t) or "").endswith("io::Write::write")]
-    tr_calls = [(bi, t) for bi, t in run_b.calls() if (mir.callee_name(t) or "").endswith("::transform")]
-    if len(writes) != 1 or len(tr_calls) != 1:
-        ctx.anchor_lost("run write_all/transform", f"expected one write_all and one transform in Args::run, found {len(writes)}/{len(tr_calls)}")
+        ctx.fail("F8-stdout", "only the driver touches stdout", f"stdout is used at {[(b.def_, b.where(bi)) for b, bi in stdout_calls]}, println! at {[(b.def_, b.where(bi)) for b, bi in print_calls]}")
+    writes = [(b, bi, t) for b in D for bi, t in b.calls() if (mir.callee_name(t) or "").endswith("Write>::write_all") or (mir.callee_orig(t) or "").endswith("io::Write::write_all") or (mir.callee_orig(t) or "").endswith("io::Write::write")]
+    compiles = [(b, bi, t) for b in D for bi, t in b.calls() if (mir.callee_name(t) or "").endswith("::transform") or (mir.callee_name(t) or "").endswith("rsass::compile_scss_path") or (mir.callee_name(t) or "") == "rsass::compile_scss_path"]
+    if len(writes) != 1 or not compiles:
+        ctx.anchor_lost("cli write_all/transform", f"expected one write_all and at least one transform in the driver, found {len(writes)}/{len(compiles)}")
         return
-    wb, wt = writes[0]
-    tb, tt = tr_calls[0]
-    data = sym.strip_transparent(S.operand(run_b, wt["args"][1]))
-    sink = sym.strip_transparent(S.operand(run_b, wt["args"][0]))
-    tr_term = S.local(run_b, tt["dest"][0])
-    if is_try_of(data, "::transform") and "stdout" in repr(sink):
-        ctx.ok("F4-stdout-data", "write_all(stdout, transform(..)?)", {"data": sym.show(data)[:160]})
+    wbody, wb, wt = writes[0]
+    data = sym.strip_transparent(S.operand(wbody, wt["args"][1], env=envs.get(wbody.def_)))
+    sink = sym.strip_transparent(S.operand(wbody, wt["args"][0], env=envs.get(wbody.def_)))
+    alts = producers(data)
+    bad = [x for x in alts if not (x[0] == "call" and (x[1].endswith("::transform") or x[1].endswith("compile_scss_path")))]
+    if not bad and "stdout" in repr(sink):
+        ctx.ok("F4-stdout-data", "write_all(stdout, transform(..)?)", {"data": sym.show(data)[:200]})
     else:
-        ctx.fail("F4-stdout-data", "write_all(stdout, transform(..)?)", f"stdout receives `{sym.show(data)[:200]}` (sink `{sym.show(sink)[:80]}`), not exactly the bytes returned by Context::transform", where=run_b.where(wb))
-    # ------------------------------------------------------------- format provenance
-    tr_recv = S.operand(run_b, tt["args"][0])
-    calls = sym.calls_in(tr_recv)
-    wf = first_call(tr_recv, "::with_format")
-    if wf is None:
-        ctx.fail("F4-format", "transform receiver = with_format(context, format)", f"the context that transforms the file is `{sym.show(tr_recv)[:200]}`: no with_format", where=run_b.where(tb))
-    else:
-        fmt = sym.strip_transparent(wf[2][1])
-        ok_style = ok_prec = False
-        if fmt[0] == "agg" and str(fmt[1]).endswith("Format::Format") and len(fmt[2]) == 2:
-            st, pr = fmt[2]
-            if st == ("param", 1, (".style",)):
-                ok_style = True   # conversions stripped: into(self.style)
-            if pr == ("param", 1, (".precision",)):
-                ok_prec = True
-        (ctx.ok if ok_style else ctx.fail)("F4-format", "Format.style <- --style", *([{"term": sym.show(fmt)}] if ok_style else [f"Format.style is `{sym.show(fmt)[:160]}`, not derived from the --style argument", run_b.where(tb)]))
-        (ctx.ok if ok_prec else ctx.fail)("F4-format", "Format.precision <- --precision", *([None] if ok_prec else [f"Format.precision is `{sym.show(fmt)[:160]}`, not the --precision argument", run_b.where(tb)]))
-        # context provenance: for_path(name)
+        ctx.fail("F4-stdout-data", "write_all(stdout, transform(..)?)", f"stdout receives `{sym.show(bad[0] if bad else data)[:200]}` (sink `{sym.show(sink)[:80]}`), not exactly the bytes returned by Context::transform", where=wbody.where(wb))
+    # ------------------------------------------------------------- format and context provenance, for every compile call of the driver
+    co = Ordinals()
+    for cbody, tb, tt in compiles:
+        env = envs.get(cbody.def_)
+        tag = co.key("transform" if (mir.callee_name(tt) or "").endswith("::transform") else "compile_scss_path")
+        if tag.startswith("compile_scss_path"):
+            fmt = sym.strip_transparent(S.operand(cbody, tt["args"][1], env=env))
+            check_format(ctx, fmt, tag, cbody.where(tb))
+            continue
+        tr_recv = S.operand(cbody, tt["args"][0], env=env)
+        wf = first_call(tr_recv, "::with_format")
+        if wf is None:
+            ctx.fail("F4-format", f"{tag}|receiver = with_format(context, format)", f"the context that transforms the file is `{sym.show(sym.strip_transparent(tr_recv))[:200]}`: no with_format, so --style and --precision do not reach the library on this path", where=cbody.where(tb))
+            continue
+        check_format(ctx, sym.strip_transparent(wf[2][1]), tag, cbody.where(tb))
         c = sym.strip_transparent(wf[2][0])
         if is_try_of(c, "::for_path", proj=".0"):
-            ctx.ok("F4-context", "context = for_path(input)?.0", None)
+            ctx.ok("F4-context", f"{tag}|context = for_path(input)?.0", None)
         else:
-            ctx.fail("F4-context", "context = for_path(input)?.0", f"the transforming context is `{sym.show(c)[:200]}`", where=run_b.where(tb))
-        src = sym.strip_transparent(S.operand(run_b, tt["args"][1]))
+            ctx.fail("F4-context", f"{tag}|context = for_path(input)?.0", f"the transforming context is `{sym.show(c)[:200]}`", where=cbody.where(tb))
+        src = sym.strip_transparent(S.operand(cbody, tt["args"][1], env=env))
         if is_try_of(src, "::for_path", proj=".1"):
-            ctx.ok("F4-context", "source = for_path(input)?.1", None)
+            ctx.ok("F4-context", f"{tag}|source = for_path(input)?.1", None)
         else:
-            ctx.fail("F4-context", "source = for_path(input)?.1", f"the transformed source is `{sym.show(src)[:200]}`", where=run_b.where(tb))
+            ctx.fail("F4-context", f"{tag}|source = for_path(input)?.1", f"the transformed source is `{sym.show(src)[:200]}`", where=cbody.where(tb))
     # StyleArg -> Style identity table
     conv = [f for f in tree.fn_list if f.get("_impl") and f["sig"]["name"] == "from" and "StyleArg" in (f["_impl"]["trait"] or "") and f["_impl"]["self_ty"].endswith("Style")]
     if len(conv) != 1:
@@ -143,48 +157,60 @@ def run(ctx, F):
             else:
                 ctx.fail("F5-style-table", f"StyleArg::{v} -> Style::{v}", f"--style {v.lower()} selects `{val}`")
     # ------------------------------------------------------------- load path: pushed before transform whenever given
-    pushes = [(bi, t) for bi, t in run_b.calls() if (mir.callee_name(t) or "").endswith("::push_path")]
+    pushes = [(b, bi, t) for b in D for bi, t in b.calls() if (mir.callee_name(t) or "").endswith("::push_path")]
     if len(pushes) != 1:
-        ctx.fail("F3-load-path", "run|push_path", f"expected one push_path call in Args::run, found {len(pushes)}")
+        ctx.fail("F3-load-path", "cli|push_path", f"expected one push_path call in the driver, found {len(pushes)}")
     else:
-        pb, pt = pushes[0]
-        arg = sym.strip_transparent(S.operand(run_b, pt["args"][1]))
-        recv = sym.strip_transparent(S.operand(run_b, pt["args"][0]))
-        good_arg = arg[0] == "param" and arg[1] == 1 and arg[2][:1] == (".load_path",)
+        pbody, pb, pt = pushes[0]
+        env = envs.get(pbody.def_)
+        arg = sym.strip_transparent(S.operand(pbody, pt["args"][1], env=env))
+        recv = sym.strip_transparent(S.operand(pbody, pt["args"][0], env=env))
+        good_arg = is_load_path(arg)
         good_recv = is_try_of(recv, "::for_path", proj=".0")
         if good_arg and good_recv:
             ctx.ok("F4-load-path", "push_path(context, self.load_path)", {"arg": sym.show(arg)})
         else:
-            ctx.fail("F4-load-path", "push_path(context, self.load_path)", f"push_path receives `{sym.show(arg)[:120]}` on `{sym.show(recv)[:120]}`", where=run_b.where(pb))
-        # the Some edge of the switch on self.load_path must lead to push_path before transform
+            ctx.fail("F4-load-path", "push_path(context, self.load_path)", f"push_path receives `{sym.show(arg)[:120]}` on `{sym.show(recv)[:120]}`", where=pbody.where(pb))
+        # the Some edge of the switch on the load path must lead to push_path before transform / before leaving the helper
         some_edge = None
-        for bi, blk in enumerate(run_b.blocks):
+        for bi, blk in enumerate(pbody.blocks):
             t = blk["term"]
             if t["k"] == "switch" and t.get("discr_of"):
-                term = sym.strip_transparent(S.place(run_b, t["discr_of"]))
-                if term == ("param", 1, (".load_path",)):
+                term = sym.strip_transparent(S.place(pbody, t["discr_of"], env=env))
+                if is_load_path(term, whole=True):
                     names = {n: tg for _, tg, n in t["targets"]}
                     some_edge = names.get("Some")
+        tbs = [tb for cbody, tb, tt in compiles if cbody is pbody]
         if some_edge is None:
-            ctx.fail("F3-load-path", "run|switch on load_path", "no branch on self.load_path found")
+            ctx.fail("F3-load-path", "cli|switch on load_path", "no branch on the --load-path option found where push_path is called")
         else:
-            avoid = {pb}
-            reach = run_b.reachable_blocks(some_edge, avoid=avoid)
-            if tb in reach:
-                ctx.fail("F3-load-path", "run|push_path before transform", "with --load-path given, transform can be reached without push_path", where=run_b.where(tb))
-            elif tb not in run_b.reachable_blocks(pb):
-                ctx.fail("F3-load-path", "run|push_path before transform", "transform is not reached after push_path", where=run_b.where(pb))
+            reach = pbody.reachable_blocks(some_edge, avoid={pb})
+            after = pbody.reachable_blocks(pb)
+            if any(tb in reach for tb in tbs) or (not tbs and any(r in reach for r in pbody.return_blocks())):
+                ctx.fail("F3-load-path", "cli|push_path before transform", "with --load-path given, transform can be reached without push_path", where=pbody.where(pb))
+            elif tbs and not any(tb in after for tb in tbs):
+                ctx.fail("F3-load-path", "cli|push_path before transform", "transform is not reached after push_path", where=pbody.where(pb))
             else:
-                ctx.ok("F3-load-path", "run|push_path before transform", {"some_edge": some_edge, "push_path": pb, "transform": tb})
+                ctx.ok("F3-load-path", "cli|push_path before transform", {"some_edge": some_edge, "push_path": pb, "transform": tbs})
+        # a compile call that can run when a load path was given must be the one that received it
+        for cbody, tb, tt in compiles:
+            if cbody is not pbody or (some_edge is not None and tb not in pbody.reachable_blocks(pb)):
+                none_only = False
+                if cbody is pbody and some_edge is not None:
+                    none_only = tb not in pbody.reachable_blocks(some_edge)
+                if not none_only:
+                    ctx.fail("F3-load-path", "cli|every compile call sees the load path", f"{mir.short(mir.callee_name(tt))} in {mir.short(cbody.def_)} can run for an invocation with --load-path without the path having been pushed", where=cbody.where(tb))
     # argument order
-    nexts = [(bi, t) for bi, t in run_b.calls() if (mir.callee_orig(t) or "") == "std::iter::Iterator::next"]
     order_ok = False
-    for bi, t in nexts:
-        it = S.operand(run_b, t["args"][0])
-        its = sym.strip_transparent(it)
-        if its[0] == "call" and its[1].endswith("IntoIterator>::into_iter") and sym.strip_transparent(its[2][0]) == ("param", 1, (".input",)):
-            order_ok = True
-    bad_iter = [mir.callee_name(t) for bi, t in run_b.calls() if any(x in (mir.callee_orig(t) or "") for x in ("Iterator::rev", "::sort", "Iterator::skip", "Iterator::take", "Iterator::step_by", "::dedup", "::retain"))]
+    bad_iter = []
+    for b in D:
+        env = envs.get(b.def_)
+        for bi, t in b.calls():
+            if (mir.callee_orig(t) or "") == "std::iter::Iterator::next":
+                its = sym.strip_transparent(S.operand(b, t["args"][0], env=env))
+                if its[0] == "call" and its[1].endswith("IntoIterator>::into_iter") and sym.strip_transparent(its[2][0]) == ("param", 1, (".input",)):
+                    order_ok = True
+        bad_iter += [mir.callee_name(t) for bi, t in b.calls() if any(x in (mir.callee_orig(t) or "") for x in ("Iterator::rev", "::sort", "Iterator::skip", "Iterator::take", "Iterator::step_by", "::dedup", "::retain"))]
     if order_ok and not bad_iter:
         ctx.ok("F4-input-order", "for name in &self.input (forward slice iterator)", None)
     else:
@@ -195,6 +221,72 @@ def run(ctx, F):
     ctx.explanation = ("CLI dataflow by symbolic provenance (F4) on the MIR of rsass-cli: option fields -> Format -> with_format -> transform -> write_all(stdout); "
                        "error flow (F2) of every Result in Args::run; exit-code/`Error:` table from the AST of main; stdout inventory over the whole binary crate; "
                        "FsLoader::push_path appends unconditionally, for_path seeds the path list with the file's directory, find_file walks it forward and returns the first file.")
+
+
+def driver_set(cli, run_b):
+    """Args::run and the free functions / inherent methods of the binary crate it (transitively) calls;
+    trait impls (conversions, clap derives) are not part of the driver"""
+    D = [run_b]
+    seen = {run_b.def_}
+    i = 0
+    while i < len(D):
+        for bi, t in D[i].calls():
+            d = mir.callee_name(t)
+            if d and d in cli.bodies and d not in seen and not cli.bodies[d].raw.get("trait") and "clap" not in d and "{closure" not in d:
+                seen.add(d)
+                D.append(cli.bodies[d])
+        i += 1
+    return D, {}
+
+
+def producers(t):
+    """The calls that produce the success value denoted by t, looking through `?` (Try::branch .. Continue.0),
+    `Ok(v)`, phi alternatives and the error-propagation alternatives of an inlined helper's return value."""
+    t = sym.strip_transparent(t)
+    if t[0] == "proj" and list(t[2])[:2] == ["as Continue", ".0"] and len(t[2]) == 2:
+        inner = t[1]
+        if inner[0] == "call" and inner[1].endswith("Try>::branch"):
+            out = []
+            for alt in sym.alternatives(sym.strip_transparent(inner[2][0])):
+                alt = sym.strip_transparent(alt)
+                if alt[0] == "call" and alt[1].endswith("::from_residual"):
+                    continue          # the helper's own error exits
+                if alt[0] == "agg" and str(alt[1]).endswith("Result::Ok") and alt[2]:
+                    out.extend(producers(alt[2][0]))
+                elif alt[0] == "call" and alt[1].endswith("Try>::from_output") and alt[2]:
+                    out.extend(producers(alt[2][0]))
+                else:
+                    out.append(alt)
+            return out
+    if t[0] == "phi":
+        out = []
+        for alt in sym.alternatives(t):
+            out.extend(producers(alt))
+        return out
+    return [t]
+
+
+def is_load_path(t, whole=False):
+    """the term is self.load_path (whole option) or its payload"""
+    t = sym.strip_transparent(t)
+    if t[0] == "param" and t[1] == 1 and t[2][:1] == (".load_path",):
+        return True
+    if t[0] == "proj":
+        b = sym.strip_transparent(t[1])
+        return b[0] == "param" and b[1] == 1 and b[2][:1] == (".load_path",)
+    return False
+
+
+def check_format(ctx, fmt, tag, where):
+    ok_style = ok_prec = False
+    if fmt[0] == "agg" and str(fmt[1]).endswith("Format::Format") and len(fmt[2]) == 2:
+        st, pr = (sym.strip_transparent(x) for x in fmt[2])
+        if st == ("param", 1, (".style",)):
+            ok_style = True   # conversions stripped: into(self.style)
+        if pr == ("param", 1, (".precision",)):
+            ok_prec = True
+    (ctx.ok if ok_style else ctx.fail)("F4-format", f"{tag}|Format.style <- --style", *([{"term": sym.show(fmt)}] if ok_style else [f"Format.style is `{sym.show(fmt)[:160]}`, not derived from the --style argument", where]))
+    (ctx.ok if ok_prec else ctx.fail)("F4-format", f"{tag}|Format.precision <- --precision", *([None] if ok_prec else [f"Format.precision is `{sym.show(fmt)[:160]}`, not the --precision argument", where]))
 
 
 def final_expr(body):
